@@ -16,4 +16,4 @@ Extraction "model.ml"
   scan scan_backend parse_chunks ginit
   enable_gnss disable_gnss gps_glonass gps_galileo_beidou set_rate_in_hz cfg_save cfg_reset
   warm_start cold_start rst_start rst_stop esfla_set lever_arm set_datetime sos_backup sos_clear
-  pack_item_cfg unpack_item_cfg from_key valset_payload valget_poll_payload valget_decode.
+  pack_item_cfg unpack_item_cfg from_key valset_payload valget_poll_payload valget_decode valget_reencode.
